@@ -10,7 +10,7 @@ factor, `-`/`+` never sit on an integer literal (the grammar folds them), names 
 depth through constructs that the parser enters recursively (parentheses, argument lists, subqueries, …), `sizeE/T/S`
 a size measure for induction.  Core Lean only.
 -/
-namespace Octo.Sql
+namespace Octo.SqlSyn
 
 def BinOp.lvl : BinOp → Nat
   | .bitOr => 6 | .bitAnd => 7 | .shl => 8 | .shr => 8 | .plus => 9 | .minus => 9
@@ -277,4 +277,4 @@ def sizeSs : List Sel → Nat
   | s :: ss => sizeS s + sizeSs ss + 1
 end
 
-end Octo.Sql
+end Octo.SqlSyn
